@@ -2,7 +2,7 @@
 import re
 
 from .. import ir
-from ..analysis import And, Atom, Not, Or, T, atoms_of, cmp_formula, implies, show, uncond_subnodes
+from ..analysis import And, Atom, Not, Or, T, atoms_of, cmp_formula, implies, show, uncond_subnodes, sure_subnodes
 from ..common import Env, call_args, callee_paths, key, ordinal_keys, MPSC_SEND, MPSC_RECV
 from ..paths import enum_paths, TooManyPaths
 from ..panics import PanicAnalysis
@@ -222,7 +222,7 @@ def rules(P, R, prefix="C11"):
                     "on timer expiry seal() is reached only under `%s` (required: whenever the batch is non-empty)" % show(inner))
         resets = [n for n in run.nodes() if n["k"] == "mcall" and n["name"] == "reset" and "Sleep::reset" in " ".join(callee_paths(n))]
         in_timer = [n for n in resets if any(x is n for x in ir.walk(tbody))]
-        unc = [n for n in uncond_subnodes(tbody) if any(n is r for r in resets)]
+        unc = [n for n in sure_subnodes(tbody) if any(n is r for r in resets)]
         R.judge(bool(unc), prefix + ".B5", key(run, "timer re-armed on every path of the timer arm" + tag), tbody["sp"], "", "the timer arm does not unconditionally re-arm the seal timer")
         for r, i in ordinal_keys(resets, lambda x: 0):
             if any(r is x for x in in_timer):
